@@ -64,7 +64,7 @@ Proof. split; vm_compute; reflexivity. Qed.
     operator, lambda, call with and without parentheses, subscript, star-less multiplication.
     Missing: mixtures of kinds (a combination may cost less than one unit of depth per construct, e.g. `f (x)` is one
     call, so the statement needs the cost function; sampled by the check) and indented blocks (the lexer refuses more
-    than 100 columns of indentation before the parser sees them: known finding, Spec.Known_C09). *)
+    than 100 columns of indentation before the parser sees them: known finding, Spec.Known_indent). *)
 Theorem deep_nesting_is_error_partial : forall k n,
   k <> KLamBlock -> LIMIT <= n -> reports (parse (uniform k n)) = true.
 Proof. exact deep_parse. Qed.
@@ -85,7 +85,7 @@ Proof. split; vm_compute; reflexivity. Qed.
 (** The executable statement of the property (Spec.judge) accepts what the model does on these programs. *)
 Theorem model_meets_judge : forall k n,
   k <> KLamBlock -> n <= CPYTHON_DEPTH \/ LIMIT < n ->
-  judge (mkobs (Some n) 0 (model_ending (parse (uniform k n)))) = true.
+  judge (mkobs (Some n) 0 0 (model_ending (parse (uniform k n)))) = true.
 Proof. exact model_judge. Qed.
 
 (** Before the repair there was no bound: nesting n reaches depth at least n. *)
